@@ -1,4 +1,6 @@
 import DcmVerif.Props.Source_filter
+import DcmVerif.Props.Source_classes
+import DcmVerif.Props.Source_content
 import DcmVerif.Props.C14_flt
 import DcmVerif.Props.C14_key
 import DcmVerif.Props.C14_ext
